@@ -21,6 +21,15 @@ LEVEL_NOTE = "Trusts: Lean kernel; hand-written router model (tied by differenti
 ASSUMPTIONS = ["each input port has at most one source (the property's quantifier)", "component and port names are strings"]
 
 
+# output values: the router moves VALUES it knows nothing about - small ints, and None / False / "" / 0.0 / an empty tuple
+# (falsy values are values; `None` is what a device reports when it has nothing to show).  Requests carry codes.
+VALS = [0, 1, 2, 3, 4, None, False, "", 0.0, ()]
+
+
+def vcode(v):
+    return next((i for i, x in enumerate(VALS) if type(x) is type(v) and x == v), -1)
+
+
 def real_api(inv, routes, extra_roots):
     from tickit.core.management.event_router import EventRouter, InverseWiring, Wiring
     from tickit.core.typedefs import ComponentPort
@@ -55,7 +64,7 @@ def real_api(inv, routes, extra_roots):
         "tree": sorted([c, sorted(v)] for c, v in er.component_tree.items()),
         "inverse_tree": sorted([c, sorted(v)] for c, v in er.inverse_component_tree.items()),
         "dependants": [[c, sorted(er.dependants(c))] for c in sorted(set(comps) | set(extra_roots))],
-        "routes": [sorted([b, sorted([q, v] for q, v in ch.items())] for b, ch in er.route(r["src"], dict((p, v) for p, v in r["changes"])).items()) for r in routes],
+        "routes": [sorted([b, sorted([q, vcode(v)] for q, v in ch.items())] for b, ch in er.route(r["src"], dict((p, VALS[v]) for p, v in r["changes"])).items()) for r in routes],
     }
     cfg_shape = []
     for how, iwc in from_cfg.items():
@@ -71,7 +80,7 @@ def real_api(inv, routes, extra_roots):
         return {"components": cs, "inputs": sorted(r.input_components), "outputs": sorted(r.output_components),
                 "tree": sorted([c, sorted(v)] for c, v in r.component_tree.items() if v),
                 "dependants": [[c, sorted(r.dependants(c))] for c in sorted(set(comps) | set(extra_roots))],
-                "routes": [sorted([b, sorted([q, v] for q, v in ch.items())] for b, ch in r.route(x["src"], dict((p, v) for p, v in x["changes"])).items()) for x in routes]}
+                "routes": [sorted([b, sorted([q, vcode(v)] for q, v in ch.items())] for b, ch in r.route(x["src"], dict((p, VALS[v]) for p, v in x["changes"])).items()) for x in routes]}
     base = dict(api(er))
 
     def wiring_dict(only_sources, empty_ports):
@@ -166,7 +175,7 @@ def mk_case(inv, rng):
     for c in comps[:4]:
         ps = [p for (a, p) in outs if a == c] + ["zz"]
         k = rng.randrange(1, len(ps) + 1)
-        routes.append({"src": c, "changes": [[p, rng.randrange(5)] for p in rng.sample(ps, k)]})
+        routes.append({"src": c, "changes": [[p, rng.randrange(len(VALS))] for p in rng.sample(ps, k)]})
     return {"inv": inv, "routes": routes, "extra_roots": ["ghost"]}
 
 
